@@ -108,23 +108,24 @@ inductive FloatRes where
 def allDigits (s : Str) : Bool := s.all isDigit
 def digitsNat (s : Str) : Nat := s.foldl (fun a c => a * 10 + digitVal c) 0
 
-/-- `float(s)` on plain decimals. -/
-def pyFloat? (s : Str) : FloatRes :=
-  let t := strip s
-  let (neg, body) := match t with
-    | '-' :: r => (true, r)
-    | '+' :: r => (false, r)
-    | r => (false, r)
+/-- the unsigned part of a float literal -/
+def floatBody (neg : Bool) (body : Str) : FloatRes :=
   if body.any (fun c => c == 'e' || c == 'E' || c == '_' || c == 'n' || c == 'N' || c == 'i' || c == 'I') then .unsupported
   else
     let ip := body.takeWhile (· != '.')
-    let rest := body.dropWhile (· != '.')
-    let fp := rest.drop 1
+    let fp := (body.dropWhile (· != '.')).drop 1
     if !(allDigits ip && allDigits fp) then .valueError
     else if ip.isEmpty && fp.isEmpty then .valueError
     else
       let m : Int := (digitsNat (ip ++ fp) : Nat)
       .ok (Dec.norm (if neg then -m else m) fp.length)
+
+/-- `float(s)` on plain decimals. -/
+def pyFloat? (s : Str) : FloatRes :=
+  match strip s with
+  | '-' :: r => floatBody true r
+  | '+' :: r => floatBody false r
+  | r => floatBody false r
 
 /-- split a text into lines, each keeping its `'\n'` (Python text-file iteration / `StringIO` iteration) -/
 def splitLinesKeep : Str → List Str
